@@ -39,6 +39,7 @@ TABLE = {
  "tasks started by service calls support done callbacks": ("C14", "@service function calling task.add_done_callback(task.current_task(), cb) failed with KeyError: the service task had no callback table"),
  "a requirement with a malformed version is ignored regardless of line order": ("C20", "requirements lines ['p==notaversion', 'p==1.0'] selected 'notaversion' while ['p==1.0', 'p==notaversion'] selected 1.0"),
  "the Jupyter kernel drops an invalid shell message instead of shutting down": ("C19", "request sequence [execute_request signed with a wrong key, kernel_info_request]: the forged request shut the session down and the valid request got no reply"),
+ "exceptions in trigger functions are logged with the script's traceback (new subsystem)": ("C18", "new subsystem: 1/0 three calls below an @event_trigger function was logged by custom_components.pyscript.function as 'run_coro: got exception' with an eval.py frame, not on the script's logger with hello.py frames"),
 }
 log = subprocess.run(["git", "-C", "/repo", "log", "--reverse", "--format=%h %s"], capture_output=True, text=True).stdout.strip().split("\n")
 fixed = []
